@@ -73,6 +73,7 @@ type FnCtx struct {
 	allCells map[*ssa.Alloc]*Cell
 	schemaHyps []*Term
 	covers  []*Obligation
+	lastPos token.Pos
 	maxPaths int
 	usedAssumed map[string]bool
 	usedIntrinsics map[string]bool
@@ -329,6 +330,42 @@ func (fc *FnCtx) run() (err error) {
 	states := []*State{s}
 	for _, sp := range fc.ct.Splits {
 		pv, ok := fc.entry[sp.Var]
+		if ok && sp.Table != "" {
+			gi := fc.eng.globals[sp.Table]
+			if gi == nil || gi.Kind != "structtable" || pv.K != VStruct {
+				return fmt.Errorf("%s: split over table %s needs a struct parameter and a struct table", fc.key, sp.Table)
+			}
+			st := pv.Typ.Underlying().(*types.Struct)
+			nrows := len(gi.Fields[st.Field(0).Name()])
+			var param *ssa.Parameter
+			for _, p := range fn.Params {
+				if p.Name() == sp.Var {
+					param = p
+				}
+			}
+			var next []*State
+			for _, st0 := range states {
+				var rows []*Term
+				for r := 0; r < nrows; r++ {
+					var eqs []*Term
+					lit := Val{K: VStruct, Typ: pv.Typ}
+					for i := 0; i < st.NumFields(); i++ {
+						v := gi.Fields[st.Field(i).Name()][r]
+						eqs = append(eqs, mkEq(pv.Elems[i].T, v))
+						lit.Elems = append(lit.Elems, intVal(v, st.Field(i).Type()))
+					}
+					rows = append(rows, mkAnd(eqs...))
+					c := st0.clone()
+					c.assume(mkAnd(eqs...))
+					c.regs[param] = lit
+					c.trace = append(c.trace, fmt.Sprintf("split %s=row%d", sp.Var, r))
+					next = append(next, c)
+				}
+				fc.oblige(st0, fc.key+".split["+sp.Var+"]", "split", nil, sp.Var+" is a row of "+sp.Table, mkOr(rows...), "entry")
+			}
+			states = next
+			continue
+		}
 		if !ok || pv.K != VInt {
 			return fmt.Errorf("%s: split variable %s is not an integer parameter", fc.key, sp.Var)
 		}
@@ -433,6 +470,11 @@ func (fc *FnCtx) atReturn(s *State, rets []Val) {
 	for _, h := range fc.ct.Hints {
 		if h.Where == "exit" {
 			fc.applyHint(s, env, h, "exit")
+		}
+		if h.Where == "ret" {
+			renv := &Env{fc: fc, names: env.names, cellsAt: s, heap: s.heap, oldNames: fc.entry, oldHeap: fc.oldHeap, pos: fc.lastPos,
+				nalloc0: fc.nalloc0, nobj0: fc.nobj0}
+			fc.applyHint(s, renv, h, "return")
 		}
 	}
 	for _, c := range fc.ct.Ensures {
